@@ -48,7 +48,7 @@ func checkC06(ci interface{}, st *Stats) error {
 	b := Build(g, BuildOpts{MemoRules: c.memoRules(), Probe: probe})
 	// one file, parsed once per rule as the root: the file object (and its lazily built line
 	// table) is reused by several failing parses whose errors lie at different places
-	file := text.NewFile("f", []byte(in))
+	file := newFileOwned("f", []byte(in))
 	fs := parsley.NewFileSet(file)
 	judged := 0
 	for root := range g.Rules {
